@@ -9,11 +9,19 @@ ORD = ('Less', 'Equal', 'Greater')
 
 
 def _in_set(atoms, pred):
-    """set of variant names the term selected by `pred` may have on this path (None if never tested)"""
+    """set of variant names the term selected by `pred` may have on this path (None if never tested). A test on the result
+    of Ord::cmp(a, b) appears as a comparison atom on (a, b) (mirlib.lit_atoms): it is mapped back to Ordering names."""
     cur = None
+    names = {'<': 'Less', '=': 'Equal', '>': 'Greater'}
     for a in atoms:
         if a[0] == 'in' and pred(a[1]):
             cur = set(a[2]) if cur is None else (cur & set(a[2]))
+        elif a[0] == 'cmp':
+            for (x, y, rel) in ((a[1], a[2], a[3]), (a[2], a[1], frozenset({'<': '>', '>': '<', '=': '='}[c] for c in a[3]))):
+                if pred(('call', 'std::cmp::Ord::cmp', (x, y), None)):
+                    st = set(names[c] for c in rel)
+                    cur = st if cur is None else (cur & st)
+                    break
     return cur
 
 
@@ -199,7 +207,33 @@ def r_dom_cmp(ctx, rule='R10.2'):
     b = _dominance_default(ctx, 'cmp')
     cm = b.calls_to('Ord::cmp')
     uv = b.calls_to('Dominance::use_value')
-    if not (ctx.floor(rule, 'cmp', b, len(cm), 2, 'Ord::cmp calls') and ctx.floor(rule, 'use_value', b, len(uv), 1, 'use_value call')):
+    # accepted alternative spelling of the coordinate stage: (0..n).map(|i| coord(a,i).cmp(&coord(b,i))).find(|o| *o != Equal).unwrap_or(Equal)
+    # — the first non-Equal comparison is returned as it is, so the polarity is that of the comparison itself
+    iter_form = False
+    for c in ctx.unit(b)[1:]:
+        for (cbb, ct) in c.calls_to('Ord::cmp'):
+            tt = c.origin.call(ct, c.term_point(cbb))
+            a0, a1 = tt[2]
+            if M.is_call(a0, 'Dominance::get_coordinate') and M.is_call(a1, 'Dominance::get_coordinate'):
+                okc = M.is_param(a0[2][1], index=1) and a0[2][1][1] == b.name and M.is_param(a1[2][1], index=3) and a1[2][1][1] == b.name and \
+                    a0[2][2] == a1[2][2] and M.is_param(a0[2][2], index=1) and a0[2][2][1] == c.name
+                rets = [b.origin.place({'l': 0, 'p': []}, b.term_point(rb)) for rb in b.return_blocks()]
+                shape = False
+                for bb_ in b.live_blocks():
+                    t_ = b.term(bb_)
+                    if t_['k'] == 'call' and (t_.get('callee') or '').endswith('unwrap_or'):
+                        u = b.origin.call(t_, b.term_point(bb_))
+                        if M.is_call(u[2][0], 'find') and M.is_call(u[2][0][2][0], 'map') and isinstance(u[2][0][2][0][2][1], tuple) and u[2][0][2][0][2][1][:2] == ('closure', c.name) \
+                                and _ord_const(u[2][1]) == 'Equal':
+                            rng = [x for x in M.walk(u[2][0][2][0][2][0]) if isinstance(x, tuple) and x and x[0] == 'aggr' and x[1].endswith('Range')]
+                            pr = _closure_ret(ctx.F, u[2][0][2][1])
+                            neq = isinstance(pr, tuple) and pr[0] == 'cmp' and pr[1] == 'Ne' and any(_ord_const(x) == 'Equal' for x in pr[2:4]) and any(M.is_param(x, index=1) for x in pr[2:4])
+                            shape = bool(rng) and M.is_const(dict(rng[0][3])['start'], 0) and M.is_call(dict(rng[0][3])['end'], 'Dominance::nb_dimensions') and neq
+                ctx.check(okc and shape, rule, 'coordinate-iterator-form', c, c.loc(cbb),
+                          'coordinates: first non-Equal result of cmp(coord(a, i), coord(b, i)) for i in 0..nb_dimensions, Equal if none (iterator form)',
+                          'the iterator form of the coordinate stage is not (0..n).map(cmp(coord(a,i), coord(b,i))).find(!= Equal).unwrap_or(Equal)')
+                iter_form = okc and shape
+    if not (ctx.floor(rule, 'cmp', b, len(cm) + (1 if iter_form else 0), 2, 'Ord::cmp calls') and ctx.floor(rule, 'use_value', b, len(uv), 1, 'use_value call')):
         return
     for (bb, t) in cm:
         tt = b.origin.call(t, b.term_point(bb))
@@ -258,7 +292,8 @@ def r_dom_cmp(ctx, rule='R10.2'):
         none_edge = any(a[0] == 'in' and M.is_call(a[1], 'Iterator::next') and a[2] == frozenset(['None']) for a in atoms)
         if none_edge:
             rets.add(_ord_const(_path_ret(b, blocks, end)))
-    ctx.check(rets == {'Equal'}, rule, 'all-equal', b, b.loc(0), 'when nothing differs the result is Equal', 'after the coordinate loop the result is %s' % sorted(str(x) for x in rets))
+    if not iter_form:
+        ctx.check(rets == {'Equal'}, rule, 'all-equal', b, b.loc(0), 'when nothing differs the result is Equal', 'after the coordinate loop the result is %s' % sorted(str(x) for x in rets))
     # SimpleDominanceChecker::cmp forwards unswapped
     fw = ctx.body('simple::SimpleDominanceChecker', 'cmp', trait='DominanceChecker')
     rt = _ret_term(fw)
@@ -362,36 +397,43 @@ def r_dom_store(ctx):
     dv = dom_var[0] if dom_var else None
     thv = thr_w[0][1] if thr_w else None
     pushes = [b.term_point(bb) for (bb, t) in b.calls_to('push')]
-    for st in occ:
-        for (edges, blocks, end) in M.enumerate_paths(b, st):
-            atoms = M.path_atoms(b, edges)
-            if not M.consistent(atoms):
+    retain_pts = [b.term_point(bb) for (bb, t) in b.calls_to('retain')]
+    # the result returned on the Occupied arm: dominated = the flag the closure sets; threshold = None iff not dominated
+    res = None
+    for (bb_, i_, s_) in aggr_assigns(b, 'DominanceCheckResult'):
+        if retain_pts and (bb_, i_) in b.reach(b.after(retain_pts[0])):
+            res = b.origin.rvalue(s_['rv'], (bb_, i_))
+    good = good and res is not None
+    if good:
+        f = dict(res[3])
+        good = f.get('dominated') == dv
+        th_ok = False
+        cs = M.cases(f.get('threshold'))
+        if len(cs) == 2:
+            none_case = [(c_, v_) for (c_, v_) in cs if isinstance(v_, tuple) and v_[0] == 'aggr' and v_[2] == 'None']
+            acc_case = [(c_, v_) for (c_, v_) in cs if v_ == thv]
+            if len(none_case) == 1 and len(acc_case) == 1:
+                def asserts(conds, what):
+                    out = []
+                    for c_ in conds:
+                        out.extend(M.lit_atoms(c_))
+                    return what in [(a_[0], a_[1]) for a_ in out if a_[0] in 'TF']
+                th_ok = asserts(none_case[0][0], ('F', dv)) and asserts(acc_case[0][0], ('T', dv))
+        good = good and th_ok
+        # insertion iff not dominated
+        nd = lambda atoms, lit: any(a_[0] == 'F' and a_[1] == dv for a_ in atoms)
+        after_scan = b.after(retain_pts[0]) if retain_pts else []
+        ps_ = [p_ for p_ in pushes if retain_pts and p_ in b.reach(after_scan)]
+        ok1, cut_, _ = M.guarded(b, ps_, nd, starts=after_scan)
+        ok2 = bool(ps_) and bool(cut_)
+        for (bbk, lab) in cut_:
+            tb = [t_ for (t_, l_) in b.succ(bbk) if l_ == lab][0]
+            if not any(p_ in b.reach([(tb, 0)]) for p_ in ps_):
                 continue
-            rt = _path_ret(b, blocks, end)
-            f = dict(rt[3]) if isinstance(rt, tuple) and rt[0] == 'aggr' and rt[1].endswith('DominanceCheckResult') else {}
-            eff = M.path_effects(b, blocks, st, end)
-            # only what happens after the scan (the retain call) matters here
-            ri = [n for n, (k, pt, s) in enumerate(eff) if k == 'call' and (s.get('callee') or '').endswith('::retain')]
-            eff = eff[ri[-1] + 1:] if ri else eff
-            pushed = [s for (k, pt, s) in eff if k == 'call' and (s.get('callee') or '').endswith('::push')]
-            is_dom = [a_[0] for a_ in atoms if a_[0] in 'TF' and a_[1] == dv]
-            if not f or f.get('dominated') != dv or not is_dom:
-                good = False
-                continue
-            if is_dom[-1] == 'F':   # not dominated: insert, threshold None
-                if len(pushed) != 1:
-                    good = False
-                else:
-                    pv = b.origin.operand(pushed[0]['args'][1], (blocks[-1], 0)) if False else None
-                th = f.get('threshold')
-                reset = [1 for (k, pt, s) in eff if k == 'assign' and thv is not None and s['place']['l'] == thv[2]
-                         and (lambda v: isinstance(v, tuple) and v[0] == 'aggr' and v[2] == 'None')(b.origin.rvalue(s['rv'], pt))]
-                if not ((isinstance(th, tuple) and th[0] == 'aggr' and th[2] == 'None') or (th == thv and reset)):
-                    good = False
-            else:                   # dominated: nothing inserted, threshold = accumulated
-                touched = [1 for (k, pt, s) in eff if k == 'assign' and thv is not None and s['place']['l'] == thv[2]]
-                if pushed or f.get('threshold') != thv or touched:
-                    good = False
+            r_ = b.reach([(tb, 0)], avoid=ps_)
+            if any(p_ in r_ for p_ in ret_points(b)):
+                ok2 = False
+        good = good and ok1 and ok2
     ctx.check(good, 'R10.3', 'after-scan', b, b.loc(0), 'after the scan the state is inserted iff not dominated; a dominated verdict returns the accumulated threshold, a non-dominated one None',
               'after the retain scan: insertion / returned threshold are not tied to the `dominated` flag set by the closure')
     for (bb, t) in b.calls_to('push'):
@@ -400,7 +442,7 @@ def r_dom_store(ctx):
         ctx.check(bool(f) and M.is_param(f.get('state'), index=1) and M.is_param(f.get('value'), index=3), 'R10.3', 'inserted-entry', b, b.loc(bb), 'the entry inserted is (state, value) of the query', 'inserted entry is %s' % M.show(pv))
     # R10.4 threshold terms
     uvp = lambda atoms, lit: any(a_[0] == 'T' and M.is_call(a_[1], 'Dominance::use_value') for a_ in atoms)
-    good = len(thr_w) >= 2
+    good = len(thr_w) >= 1
     forms = set()
     for (pt, d, v) in thr_w:
         items = v[1] if isinstance(v, tuple) and v[0] == 'min' else ()
@@ -410,7 +452,22 @@ def r_dom_store(ctx):
             continue
         inner = oth[0][3][0][1]
         ovd = lambda t: M.is_field(t, 'only_val_diff', 'DominanceCmpResult')
-        if other(inner, 'value'):
+        if isinstance(inner, tuple) and inner[0] == 'ite':
+            # Some(if only_val_diff { v - 1 } else { v }) : both forms in one write
+            cs = M.cases(inner)
+            okc = len(cs) == 2
+            for (conds, leaf) in cs:
+                at = [a_ for c_ in conds for a_ in M.lit_atoms(c_)]
+                if other(leaf, 'value'):
+                    forms.add('value')
+                    okc = okc and any(a_[0] == 'F' and ovd(a_[1]) for a_ in at)
+                elif isinstance(leaf, tuple) and leaf[0] == 'sub' and other(leaf[1], 'value') and M.is_const(leaf[2], 1):
+                    forms.add('value-1')
+                    okc = okc and any(a_[0] == 'T' and ovd(a_[1]) for a_ in at)
+                else:
+                    okc = False
+            ok = okc
+        elif other(inner, 'value'):
             forms.add('value')
             ok, cut, bad_ = M.guarded(c, [pt], lambda atoms, lit: any(a_[0] == 'F' and ovd(a_[1]) for a_ in atoms))
         elif isinstance(inner, tuple) and inner[0] == 'sub' and other(inner[1], 'value') and M.is_const(inner[2], 1):
@@ -458,7 +515,10 @@ def r_cache_store(ctx):
     good = len(am) == 1 and len(oi) == 1
     if good:
         oia = [up.origin.operand(x, up.term_point(oi[0][0])) for x in oi[0][1]['args']]
-        good = new(oia[1]) and M.contains(oia[0], lambda x: M.is_call(x, 'and_modify'))
+        val = oia[1]
+        if isinstance(val, tuple) and val and val[0] == 'closure':
+            val = _closure_ret(ctx.F, val)
+        good = val is not None and new(val) and M.contains(oia[0], lambda x: M.is_call(x, 'and_modify'))
     ctx.check(good, 'R18.b', 'cache/vacant-inserts-new', up, up.loc(0), 'a vacant key receives Threshold{value, explored} built from the parameters', 'or_insert does not store Threshold{value, explored} of the parameters after and_modify')
     mc = [c for c in unit[1:]]
     good = False
